@@ -444,7 +444,11 @@ func init() {
 					hx.Explore("C15", c15Scenario(cfg), hx.ExploreCfg{Bound: 0, DefaultOnly: true}, c.Res)
 					continue
 				}
-				hx.Explore("C15", c15Scenario(cfg), hx.ExploreCfg{Bound: envBound(delayBound(c, bounds[i])), Delay: true, Prune: true, Deadline: c.Deadline}, c.Res)
+				db := bounds[i]
+				if c.Thorough() && db > 0 {
+					db = 3
+				}
+				hx.Explore("C15", c15Scenario(cfg), hx.ExploreCfg{Bound: envBound(delayBound(c, db)), Delay: true, Prune: true, Deadline: c.Deadline}, c.Res)
 			}
 			if c.Shard == 0 {
 				for _, m := range []string{"Execute", "ExecuteConcurrent", "ExecuteMixModel"} {
